@@ -20,7 +20,7 @@ use crate::report::{Acc, Check, Tier};
 use crate::util;
 use crate::world::{self, Artifacts, Verdict};
 
-pub const VARIATIONS: [&str; 27] = [
+pub const VARIATIONS: [&str; 29] = [
     "none",
     "materials:path",
     "materials:digest-byte",
@@ -49,6 +49,9 @@ pub const VARIATIONS: [&str; 27] = [
     "products:digest-truncated",
     "products:digest-extended",
     "products:digest-empty",
+    // like second-algorithm-added, with another value for the added algorithm
+    "materials:second-algorithm-other-value",
+    "products:second-algorithm-other-value",
 ];
 
 fn base_arts() -> Artifacts {
@@ -73,8 +76,11 @@ fn vary(arts: &mut Artifacts, what: &str) {
             d.insert(HashAlgorithm::Sha512, HashValue::new(world::h(1)));
             arts.insert(world::vpath("a"), d);
         }
-        "second-algorithm-added" => {
-            arts.insert(world::vpath("a"), world::desc2(1));
+        "second-algorithm-added" | "second-algorithm-other-value" => {
+            // keep the sha256 digest the entry has; add sha512 (of byte 1, or of byte 2)
+            let mut d = arts.get(&world::vpath("a")).cloned().unwrap_or_else(|| world::desc(1));
+            d.insert(HashAlgorithm::Sha512, HashValue::new(util::sha512(&[if what == "second-algorithm-added" { 1 } else { 2 }])));
+            arts.insert(world::vpath("a"), d);
         }
         "extra-entry" => {
             arts.insert(world::vpath("zz"), world::desc(9));
@@ -422,7 +428,7 @@ pub fn run(tier: Tier) -> i32 {
     }
     delegated_leg(&mut acc);
     c.acc = acc;
-    c.rule = "state = vector of per-link variations (27 kinds: none; in materials or products: other path, last / first digest byte, digest truncated by a byte / extended by a byte / of no bytes, other algorithm, second algorithm added, extra entry sorting last / first, missing last / first entry, empty map) for k authorised valid links, optionally plus a dissenting link by a key outside the key table or a tampered one; transition = change one link's variation; every state runs in_toto_verify for thresholds 2..min(k,3), with the step alone, next to a single-party step (before it, after it, after a threshold-0 step) and next to a second multi-party step whose links agree (before it, after it) under every permutation of the reference-link choice (site C); plus a delegated multi-party step (two functionaries, two-step sub-layouts) with a dissent at each of 6 places, 4 of them visible in the summaries; non-trivial = vectors that are not all equal".into();
+    c.rule = "state = vector of per-link variations (29 kinds: none; in materials or products: a second algorithm added with one of two values, other path, last / first digest byte, digest truncated by a byte / extended by a byte / of no bytes, other algorithm, second algorithm added, extra entry sorting last / first, missing last / first entry, empty map) for k authorised valid links, optionally plus a dissenting link by a key outside the key table or a tampered one; transition = change one link's variation; every state runs in_toto_verify for thresholds 2..min(k,3), with the step alone, next to a single-party step (before it, after it, after a threshold-0 step) and next to a second multi-party step whose links agree (before it, after it) under every permutation of the reference-link choice (site C); plus a delegated multi-party step (two functionaries, two-step sub-layouts) with a dissent at each of 6 places, 4 of them visible in the summaries; non-trivial = vectors that are not all equal".into();
     c.bound_completed = format!("complete variation vectors for {} (BFS reaches every vector)", bounds.join(", "));
     c.assume("all k links are validly signed by authorised keys of the key table; no rules (isolates C03)");
     c.finish()
